@@ -129,5 +129,5 @@ fn n1_packet_enum() {
             }
         }
     }
-    println!("VERIF-NATIVE cases={} nontrivial={}", cases, nontrivial);
+    println!("VERIF-NATIVE n1_packet_enum cases={} nontrivial={}", cases, nontrivial);
 }
